@@ -327,7 +327,8 @@ def ErrOut.valid (o : ErrOut) : Bool :=
   o.peak.valid && o.ra.valid && o.dec.valid && o.pa.valid && o.a.valid && o.b.valid && o.int.valid
 
 /-- priorized copy-back: `stage < 2` copies err_ra/err_dec, `stage < 3` copies err_a/err_b/err_pa
-    from the input catalogue row -/
+    from the input catalogue row, as they are (that these come back equal to the input is C05's
+    clause; C03's "positive and finite or −1" speaks about FITTED quantities only) -/
 def copyBack (stage : Nat) (fit inp : ErrOut) : ErrOut :=
   let o := if stage < 2 then { fit with ra := inp.ra, dec := inp.dec } else fit
   if stage < 3 then { o with a := inp.a, b := inp.b, pa := inp.pa } else o
